@@ -20,6 +20,7 @@ from . import c15_diff as D
 EFFECTS = {
     #                      nodes      unused_init  functions   unused_opsets  shapes  default_opset
     "optimize":            ("any",     True,        "inlined",  True,          True,   False),
+    "optimize_noinline":   ("any",     True,        "unused",   True,          True,   False),
     "rewrite":             ("any",     True,        "unused",   True,          False,  False),
     "rewrite_custom":      ("any",     True,        "unused",   True,          False,  False),
     "rewrite_empty":       ("none",    False,       "none",     False,         False,  False),
